@@ -357,8 +357,9 @@ def finish(prop, tier, res, check, rule, t0, exhaustive=True, extra=None, assump
             knownhit.append((key, e["count"], known[key]))
         else:
             new.append((key, e["count"], v, r))
-    os.makedirs(os.path.join(VERIF, "evidence"), exist_ok=True)
-    rdir = os.path.join(VERIF, "replays", prop)
+    outbase = VERIF if build.REPO == "/repo" else build.BUILD   # runs against a scratch copy never touch /verif's evidence
+    os.makedirs(os.path.join(outbase, "evidence"), exist_ok=True)
+    rdir = os.path.join(outbase, "replays", prop)
     lines = []
     for key, n, desc in knownhit:
         lines.append("KNOWN-FINDING: property=%s %s [%s] (%d case(s) this run)" % (prop, desc, key, n))
@@ -398,7 +399,7 @@ def finish(prop, tier, res, check, rule, t0, exhaustive=True, extra=None, assump
         "property_id": prop, "tier": tier, "seed": SEED, "level": level, "coverage": cov,
         "assumptions": assumptions or [], "wall_s": round(time.time() - t0, 2), "violations": len(new),
     }
-    with open(os.path.join(VERIF, "evidence", prop + ".json"), "w") as f:
+    with open(os.path.join(outbase, "evidence", prop + ".json"), "w") as f:
         json.dump(ev, f, indent=1)
     for l in lines:
         print(l)
